@@ -108,7 +108,7 @@ mod __verif_c11cut {
         one_group(1, 3, 1u64 << 40, 1u64 << 46);
     }
 
-    // @harness tiers=experimental timeout=900
+    // @harness tiers=quick,thorough timeout=900
     // @encodes distributed::splits::enumerate_parquet (pass-2 block, verbatim), distributed::splits::target_split_bytes
     // @bounds one row group of a small table on 5 nodes: rows 1..=4, bytes 0..=63, rest of the table 0..=63 bytes (four pieces: the smallest shape in which rounding the per-piece byte share UP over-attributes)
     // @oracle as cut_covers_every_row_once_small_table_3_nodes
@@ -118,7 +118,7 @@ mod __verif_c11cut {
         one_group(5, 4, 63, 63);
     }
 
-    // @harness tiers=experimental timeout=900
+    // @harness tiers=quick,thorough timeout=900
     // @encodes distributed::splits::enumerate_parquet (pass-2 block, verbatim), distributed::splits::target_split_bytes
     // @bounds one row group of a small table on 5 nodes: rows 1..=5, bytes 0..=31, rest of the table 0..=31 bytes (five rows over four pieces: the smallest shape in which a fixed-stride cut leaves the last piece empty)
     // @oracle as cut_covers_every_row_once_small_table_3_nodes
